@@ -1,4 +1,166 @@
 /-
-  C09 — early-stopped BFS = documented prefix.  Property theorems only (filled in as proofs land).
+  C09 — what `bfs` reports when it stops early: sizes are a prefix of the true growth function, the stop
+  reason is one of the documented rules, stored layers / hashes / callback trace follow the documented
+  rules.  Property theorems only; proofs in `CvProofs/Bfs.lean`.
 -/
-import CvProofs.Spec
+import CvProofs.Bfs
+import CvProofs.BfsExample
+namespace Cv
+
+variable {α : Type} {g : Graph α} {S : List α}
+
+open BfsExample in
+/-- the hypotheses `BfsHyp` are satisfiable: the 4-cycle with the identity hash, batch size 1 -/
+example : BfsHyp exG [0] := exG_hyp [0]
+
+/-! Each field of `BfsHyp` is needed (model evaluated on small graphs, see `CvProofs/BfsExample.lean`). -/
+
+open BfsExample in
+/-- `BfsHyp.batch` is needed: injective hash, symmetric graph, but batch size 0 (`ceil(1/0)` batches; the
+Python code raises `ZeroDivisionError`): the model reports completion after layer 0 although class 1 is
+not empty, so `bfs_completed_sound` fails -/
+example : (∀ x y, exB.hash x = exB.hash y → x = y) ∧ Symm exB.nb ∧ exB.batchSize = 0 ∧
+    (bfs exB {} [0]).completed = true ∧
+    ¬ ∀ x, ¬ DistLayer exB.nb [0] (bfs exB {} [0]).layerSizes.length x := by
+  obtain ⟨h1, h2, h3, h4, h5⟩ := batch_needed
+  refine ⟨h1, h2, rfl, h3, ?_⟩
+  rw [h4]; exact fun h => h 1 h5
+
+open BfsExample in
+/-- `BfsHyp.inj` is needed: with a colliding hash (constant 0) the neighbours of `0` are taken for `0`;
+completion is reported after layer 0 although class 1 is not empty -/
+example : Symm exC.nb ∧ 0 < exC.batchSize ∧ (bfs exC {} [0]).completed = true ∧
+    ¬ ∀ x, ¬ DistLayer exC.nb [0] (bfs exC {} [0]).layerSizes.length x := by
+  obtain ⟨h1, h2, h3, h4, h5⟩ := inj_needed
+  refine ⟨h1, h2, h3, ?_⟩
+  rw [h4]; exact fun h => h 1 h5
+
+open BfsExample in
+/-- `BfsHyp.symm` is needed: the directed 3-cycle flagged inverse-closed; the two-layer window forgets
+layer 0 and the run reports a fourth layer of size 1 although class 3 is empty, so `bfs_sizes_prefix` fails -/
+example : (∀ x y, exD.hash x = exD.hash y → x = y) ∧ 0 < exD.batchSize ∧ exD.invClosed = true ∧
+    3 < (bfs exD cD [0]).layerSizes.length ∧
+    ¬ ∃ L, IsLayer exD [0] 3 L ∧ (bfs exD cD [0]).layerSizes[3]? = some L.length := by
+  obtain ⟨h1, h2, h3, h4, h5⟩ := symm_needed
+  refine ⟨h1, h2, h3, by rw [h4]; decide, ?_⟩
+  rintro ⟨L, hL, hsz⟩
+  rw [h4] at hsz
+  cases L with
+  | nil => simp at hsz
+  | cons a t => exact h5 a ((hL.2 a).1 (by simp))
+
+/-- C09: the reported sizes are always a prefix of the true growth function -/
+theorem bfs_sizes_prefix (h : BfsHyp g S) (c : BfsCfg α) (i : Nat)
+    (hi : i < (bfs g c S).layerSizes.length) :
+    ∃ L, IsLayer g S i L ∧ (bfs g c S).layerSizes[i]? = some L.length := by
+  exact BfsThm.sizes_prefix h c i hi
+
+open BfsExample in
+/-- non-vacuity: a run stopped by `max_diameter = 1` reports the two layers `[1, 2]` -/
+example : BfsHyp exG [0] ∧ 1 < (bfs exG cDiam [0]).layerSizes.length ∧
+    (bfs exG cDiam [0]).completed = false := by
+  refine ⟨exG_hyp _, ?_, diam_completed⟩
+  rw [diam_sizes]; decide
+
+/-- every reported layer after layer 0 is non-empty -/
+theorem bfs_sizes_pos (h : BfsHyp g S) (c : BfsCfg α) (i : Nat) (hi : 0 < i) (n : Nat)
+    (hn : (bfs g c S).layerSizes[i]? = some n) : 0 < n := by
+  exact BfsThm.sizes_pos h c i hi n hn
+
+open BfsExample in
+example : BfsHyp exG [0] ∧ 0 < 1 ∧ (bfs exG {} [0]).layerSizes[1]? = some 2 := by
+  refine ⟨exG_hyp _, by decide, ?_⟩
+  rw [full_sizes]; rfl
+
+/-- completion is reported only when an empty next layer was observed (= the next distance class is empty) -/
+theorem bfs_completed_sound (h : BfsHyp g S) (c : BfsCfg α) (hc : (bfs g c S).completed = true) :
+    ∀ x, ¬ DistLayer g.nb S (bfs g c S).layerSizes.length x := by
+  exact BfsThm.completed_sound h c hc
+
+open BfsExample in
+example : BfsHyp exG [0] ∧ (bfs exG {} [0]).completed = true ∧ (bfs exG {} [0]).layerSizes = [1, 2, 1] :=
+  ⟨exG_hyp _, full_completed, full_sizes⟩
+
+/-- a run that did not complete was stopped by one of the three documented rules, at its last layer -/
+theorem bfs_stopped_by_rule (h : BfsHyp g S) (c : BfsCfg α) (hc : (bfs g c S).completed = false) :
+    (bfs g c S).layerSizes.length = c.maxDiameter + 1 ∨
+    (∃ n, (bfs g c S).layerSizes.getLast? = some n ∧ c.maxExplore ≤ n ∧ 2 ≤ (bfs g c S).layerSizes.length) ∨
+    (∃ f L, c.stop = some f ∧ IsLayer g S ((bfs g c S).layerSizes.length - 1) L ∧
+        f ((bfs g c S).layerSizes.length - 1) L = true) := by
+  exact BfsThm.stopped_by_rule h c hc
+
+open BfsExample in
+/-- non-vacuity: three incomplete runs, one for each rule (iteration limit, size limit, callback) -/
+example : BfsHyp exG [0] ∧ (bfs exG cDiam [0]).completed = false ∧
+    (bfs exG cExpl [0]).completed = false ∧ (bfs exG cStop [0]).completed = false :=
+  ⟨exG_hyp _, diam_completed, expl_completed, stop_completed⟩
+
+/-- and conversely none of the rules fired earlier: every layer before the last is below the explore limit -/
+theorem bfs_no_early_stop (h : BfsHyp g S) (c : BfsCfg α) (i : Nat) (hi0 : 0 < i)
+    (hi : i + 1 < (bfs g c S).layerSizes.length) (n : Nat) (hn : (bfs g c S).layerSizes[i]? = some n) :
+    n < c.maxExplore := by
+  exact BfsThm.no_early_stop h c i hi0 hi n hn
+
+open BfsExample in
+example : BfsHyp exG [0] ∧ 0 < 1 ∧ 1 + 1 < (bfs exG cStop [0]).layerSizes.length ∧
+    (bfs exG cStop [0]).layerSizes[1]? = some 2 := by
+  refine ⟨exG_hyp _, by decide, ?_, ?_⟩ <;> rw [stop_sizes] <;> decide
+
+/-- stored layers are the true layers -/
+theorem bfs_stored_sound (h : BfsHyp g S) (c : BfsCfg α) (i : Nat) (L : List α)
+    (hm : (i, L) ∈ (bfs g c S).layers) : IsLayer g S i L := by
+  exact BfsThm.stored_sound h c i L hm
+
+open BfsExample in
+example : BfsHyp exG [0] ∧ (1, [1, 3]) ∈ (bfs exG {} [0]).layers := by
+  refine ⟨exG_hyp _, ?_⟩
+  rw [full_layers]; decide
+
+/-- … and are stored exactly by the documented rule -/
+theorem bfs_stored_iff (h : BfsHyp g S) (c : BfsCfg α) (i : Nat) :
+    (∃ L, (i, L) ∈ (bfs g c S).layers) ↔
+      ∃ n, (bfs g c S).layerSizes[i]? = some n ∧
+        (i = 0 ∨ n ≤ c.storeLimit ∨ ((bfs g c S).completed = true ∧ i + 1 = (bfs g c S).layerSizes.length)) := by
+  exact BfsThm.stored_iff h c i
+
+open BfsExample in
+/-- non-vacuity: with `max_layer_size_to_store = 1` layer 1 (two states) is reported but not stored -/
+example : BfsHyp exG [0] ∧ (bfs exG cStop [0]).layerSizes = [1, 2, 1] ∧
+    (bfs exG cStop [0]).layers = [(0, [0]), (2, [2])] ∧ cStop.storeLimit = 1 :=
+  ⟨exG_hyp _, stop_sizes, stop_layers, rfl⟩
+
+/-- per-layer hashes -/
+theorem bfs_hashes_rule (h : BfsHyp g S) (c : BfsCfg α) :
+    (c.returnHashes = false → (bfs g c S).hashes = []) ∧
+    (c.returnHashes = true → (bfs g c S).hashes.length = (bfs g c S).layerSizes.length ∧
+      ∀ i H, (bfs g c S).hashes[i]? = some H →
+        H.Pairwise (· < ·) ∧ ∃ L, IsLayer g S i L ∧ H.Perm (L.map g.hash)) := by
+  exact BfsThm.hashes_rule h c
+
+open BfsExample in
+example : BfsHyp exG [0] ∧ cStop.returnHashes = true ∧
+    (bfs exG cStop [0]).hashes = [[0], [1, 3], [2]] :=
+  ⟨exG_hyp _, rfl, stop_hashes⟩
+
+/-- callback trace: called on layers 1,2,… in order, each once; on every reported layer except a last
+layer on which the size limit fired first -/
+theorem bfs_callback_trace (h : BfsHyp g S) (c : BfsCfg α) :
+    (c.stop = none → (bfs g c S).cbTrace = []) ∧
+    (∀ f, c.stop = some f → ∃ m, (bfs g c S).cbTrace = (List.range m).map (· + 1) ∧
+        (m + 1 = (bfs g c S).layerSizes.length ∨
+         (m + 2 = (bfs g c S).layerSizes.length ∧
+            ∃ n, (bfs g c S).layerSizes.getLast? = some n ∧ c.maxExplore ≤ n))) := by
+  exact BfsThm.callback_trace h c
+
+open BfsExample in
+/-- non-vacuity: both alternatives occur (callback on every layer; size limit fired before the callback) -/
+example : BfsHyp exG [0] ∧
+    (∃ f, cStop.stop = some f) ∧ (bfs exG cStop [0]).cbTrace = [1, 2] ∧
+      (bfs exG cStop [0]).layerSizes.length = 3 ∧
+    (∃ f, cExpl.stop = some f) ∧ (bfs exG cExpl [0]).cbTrace = [] ∧
+      (bfs exG cExpl [0]).layerSizes.length = 2 := by
+  refine ⟨exG_hyp _, ⟨_, rfl⟩, stop_cb, ?_, ⟨_, rfl⟩, expl_cb, ?_⟩
+  · rw [stop_sizes]; rfl
+  · rw [expl_sizes]; rfl
+
+end Cv
